@@ -323,7 +323,7 @@ def gen_case(rng, tier):
             vm['specific'] = sp_m
         if count > 0 and rng.random() < 0.85:
             names, sets_m = [], []
-            share = count >= 2 and rng.random() < 0.3
+            share = count >= 2 and rng.random() < 0.4
             for pi in range(count):
                 if share and pi > 0:
                     names.append(names[0])
@@ -346,8 +346,10 @@ def gen_case(rng, tier):
                 sets_m.append(om)
             osy = {'list': names}
             scm = {'sets': sets_m}
-            if rng.random() < 0.3:
+            if rng.random() < (0.6 if share else 0.3):
                 pair = [rng.choice(s)['id'] for s in sets_m]
+                if share and len(pair) >= 2 and len(sets_m[0]) >= 2:
+                    pair[1] = rng.choice([m for m in sets_m[0] if m['id'] != pair[0]])['id']    # an asymmetric pair
                 osy['disallowed_pairs'] = [pair]
                 scm['disallowed'] = [pair]
             for flag, key in (('revArgs', 'reverse_argument_order'), ('revCodes', 'reverse_bytecode_order')):
@@ -378,6 +380,8 @@ def gen_case(rng, tier):
                 if vm['sets'].get('disallowed') and rng.random() < 0.4:
                     # aim at a disallowed combination: it must be skipped (by every variant that lists it)
                     ids = vm['sets']['disallowed'][0]
+                    if rng.random() < 0.5:
+                        ids = list(reversed(ids))       # the mirrored combination is NOT disallowed (the list is ordered)
                     alts = [next((m for m in s_ if m['id'] == i), rng.choice(s_)) for s_, i in zip(vm['sets']['sets'], ids)]
             else:
                 alts = [o for o in rng.choice(vm['specific'])['ops']]
